@@ -10,10 +10,16 @@ Generator (2): arbitrary JSON values as patch documents: scalars, arrays of scal
 objects without op/path/from/value, null / number / array / object typed op, path, from, unknown
 op, the empty array; optionally behind some valid operations.
 
+Generator (3): pointer shapes: every operation kind x every shape of "path" x every shape of "from"
+(existing / new / the whole document "" / no leading '/' / bad escape / bad index / empty token),
+enumerated in full on two fixed documents and sampled on generated ones, mostly in place — the
+error paths of an operation that has already touched the document (move removes its source first).
+
 Direct oracle: the RFC 6902 evaluator below, written from the RFC in this file (it shares nothing
 with json-c or the Coq model), plus: patch document unchanged, copy source unchanged, no node
 shared between the result and the patch document / the source / two places of the result, no
-allocation left, no crash."""
+allocation left, no crash, and the ownership probe: after the call — failing calls in particular —
+the document is still held by exactly the caller (reference counts of the target node and of *base)."""
 import re
 from fractions import Fraction
 import jvtext
@@ -29,7 +35,8 @@ RULE = ("one case = one target tree, one patch document (any JSON value) and the
         "scripts among the successful ones, plus distinct (kind, failing index, errno) of the failing ones")
 TRUSTED = ["Coq 8.16.1 kernel (coqc), no axioms (Print Assumptions: closed under the global context)",
            "extraction (ExtrOcamlBasic only) + ocaml/mdrv glue (drv_patch.ml, jvtext.ml)",
-           "harness/drv_patch.c (typed comparison against a twin of the patch document, address-set sharing probe), jvtext.h, "
+           "harness/drv_patch.c (typed comparison against a twin of the patch document, address-set sharing probe, reference-count "
+           "ownership probe through a second reference on the target), jvtext.h, "
            "xalloc.c, gcc -fsanitize=address,undefined",
            "checks/C13.py: the Python RFC 6902 evaluator used as direct oracle"]
 ASSUMPTIONS = ["the target document is not JSON null (json-c represents JSON null by the NULL pointer, and json_patch_apply "
@@ -343,7 +350,7 @@ def parse_line(line):
     return mode, jvtext.parse(d)[0], jvtext.parse(p)[0]
 
 
-OBS = re.compile(r"^(-?\d+) (\S+) (\S+) (\S+) P(=|!\S*) C([=!-]) S(\d+):(\d+):(\d+) END (-?\d+)$")
+OBS = re.compile(r"^(-?\d+) (\S+) (\S+) (\S+) P(=|!\S*) C([=!-]) S(\d+):(\d+):(\d+) R(=|!\S*) END (-?\d+)$")
 
 
 def parse_obs(o):
@@ -351,7 +358,7 @@ def parse_obs(o):
     if not m:
         return None
     return dict(rc=int(m.group(1)), err=m.group(2), idx=m.group(3), dump=m.group(4), patch=m.group(5), src=m.group(6),
-                share=(int(m.group(7)), int(m.group(8)), int(m.group(9))), live=int(m.group(10)))
+                share=(int(m.group(7)), int(m.group(8)), int(m.group(9))), refs=m.group(10), live=int(m.group(11)))
 
 
 def outcome_of(obs):
@@ -437,6 +444,10 @@ def violations(line, impl):
         yield ("error_without_code", "failure reported with errno_code 0: " + line[:160])
     if obs["rc"] == 0 and obs["err"] != "0":
         yield ("success_with_code", "success reported with errno_code %s: %s" % (obs["err"], line[:160]))
+    if obs["refs"] != "=":
+        yield ("document_reference_broken", "%s call dropped or kept a reference on the document that was not the library's "
+               "(%s = found/expected holders): the caller's document %s: %s"
+               % ("the failing" if obs["rc"] else "the", obs["refs"][1:], "dangles" if "target" in obs["refs"] or "base" in obs["refs"] else "leaks", line[:200]))
     if obs["patch"] != "=":
         yield ("value_shared", "the patch document was modified: now %s: %s" % (obs["patch"][1:120], line[:160]))
     if obs["src"] == "!":
@@ -775,6 +786,77 @@ def gen_malformed(rng):
     return doc, prefix + [bad] + tail, kind
 
 
+# Pointer shapes: every operation kind x every shape of "path" x every shape of "from" (move/copy),
+# valid and malformed alike, the whole-document pointer "" included on both sides.  The cross
+# product is enumerated in full on two fixed documents (so it does not depend on the seed) and
+# sampled on generated documents.
+SHAPES = [b"", b"/a", b"/b", b"/b/0", b"/b/-", b"/b/2", b"/0", b"/1", b"/-", b"/nope", b"/a/x", b"/",          # pointers
+          b"x", b"a", b"0", b"-", b"a/b", b"b/0", b"~", b" ", b" /a",                                          # no leading '/'
+          b"/~", b"/a~", b"/~2", b"/b/~0", b"/b/01", b"//", b"/b/"]                                            # bad escape / index / empty token
+SHAPE_DOCS = [("o", [(b"a", ("i", 1)), (b"b", [("i", 1), ("i", 2)])]), [("i", 1), [("i", 2)], None]]
+
+
+def shape_ops(path, frm, value):
+    yield mk_op(b"move", path, **{"from": frm})
+    yield mk_op(b"copy", path, **{"from": frm})
+
+
+def gen_shapes_exhaustive():
+    out = []
+    v = ("o", [(b"k", ("i", 7))])
+    for di, doc in enumerate(SHAPE_DOCS):
+        for pi, p in enumerate(SHAPES):
+            for opn in (b"add", b"replace", b"test", b"remove"):
+                mode = "ic"[(di + pi) % 2]
+                o = mk_op(opn, p) if opn == b"remove" else mk_op(opn, p, value=v)
+                out.append((mk_line(mode, doc, [o]), {"kind": "shapes:path"}))
+            for fi, f in enumerate(SHAPES):
+                for o in shape_ops(p, f, None):
+                    mode = "ic"[(di + pi + fi) % 2]
+                    # in place for everything that involves the whole document or a malformed string
+                    if f == b"" or p == b"" or not p.startswith(b"/") or not f.startswith(b"/"):
+                        out.append((mk_line("i", doc, [o]), {"kind": "shapes:from-x-path"}))
+                        if (pi + fi) % 3 == 0:
+                            out.append((mk_line("c", doc, [o]), {"kind": "shapes:from-x-path"}))
+                    else:
+                        out.append((mk_line(mode, doc, [o]), {"kind": "shapes:from-x-path"}))
+    return out
+
+
+def gen_shapes_random(rng):
+    """the same shapes on a generated document, behind some valid operations, then a valid one"""
+    doc = gen_doc(rng, 2, 3)
+    if not (is_obj(doc) or isinstance(doc, list)):
+        doc = ("o", [(b"a", doc), (b"b", [("i", 1), ("i", 2)])])
+    cur, prefix = doc, []
+    for _ in range(rng.choice([0, 0, 1, 2])):
+        o = mk_op(b"add", target_spot(rng, cur, []), value=gen_value(rng))
+        try:
+            cur = apply_op(cur, o)
+            prefix.append(o)
+        except Bad:
+            pass
+
+    def shape():
+        r = rng.random()
+        if r < 0.30:
+            return b""
+        if r < 0.55:
+            return existing_spot(rng, cur, [])
+        if r < 0.65:
+            return target_spot(rng, cur, [])
+        return rng.choice(SHAPES)
+    opn = rng.choice([b"move", b"move", b"move", b"copy", b"copy", b"add", b"replace", b"test", b"remove"])
+    if opn in (b"move", b"copy"):
+        o = mk_op(opn, shape(), **{"from": shape()})
+    elif opn == b"remove":
+        o = mk_op(opn, shape())
+    else:
+        o = mk_op(opn, shape(), value=gen_value(rng))
+    tail = [mk_op(b"test", b"", value=cur)] if rng.random() < 0.3 else []
+    return doc, prefix + [o] + tail
+
+
 def J(x):
     """python literal -> tree (for the witness list)"""
     if x is None or isinstance(x, bool):
@@ -847,7 +929,7 @@ def extra_coverage():
 
 
 def gen(rng, tier):
-    n = 9000 if tier == "quick" else 150000
+    n = 8000 if tier == "quick" else 150000
     out = []
     for d, p in WITNESSES:
         for m in "ic":
@@ -855,6 +937,10 @@ def gen(rng, tier):
     # a JSON null target, a non-array patch
     out.append((mk_line("i", None, J([{"op": "add", "path": "", "value": 1}])), {"kind": "null-target"}))
     out.append((mk_line("c", None, J([])), {"kind": "null-target"}))
+    out += gen_shapes_exhaustive()
+    for ci in range(n // 6):
+        doc, patch = gen_shapes_random(rng)
+        out.append((mk_line("i" if rng.random() < 0.65 else "c", doc, patch), {"kind": "shapes:random"}))
     for ci in range(n):
         mode = "i" if rng.random() < 0.5 else "c"
         if rng.random() < 0.68:
